@@ -26,7 +26,7 @@ from pathlib import Path
 VERIF = Path(__file__).resolve().parents[2]
 COQ = VERIF / "coq"
 GEN = COQ / "gen"
-EVID = VERIF / "evidence"
+EVID = Path(os.environ.get("VERIF_EVIDENCE_DIR", str(VERIF / "evidence")))   # scratch dir for trial runs
 REPLAYS = EVID / "replays"
 REPO = Path(os.environ.get("VERIF_REPO", "/repo"))
 KNOWN = VERIF / "known_findings.json"
